@@ -18,7 +18,8 @@ from .match import pretty
 def _subst(text: str, amap: dict) -> str:
     if not amap:
         return text
-    return re.sub(r"'[^']*'|\"[^\"]*\"|(?<![.\w])[A-Za-z_][A-Za-z_0-9]*\b",
+    # identifiers only: not inside string literals, not attribute names, not keyword-argument names (`name=` but not `name==`)
+    return re.sub(r"'[^']*'|\"[^\"]*\"|(?<![.\w])[A-Za-z_][A-Za-z_0-9]*\b(?!\s*=(?!=))",
                   lambda m: amap.get(m.group(0), m.group(0)), text)
 
 
